@@ -194,6 +194,9 @@ def check_C01(replay=None):
                                       "--layouts", 2 if thorough else 1]))
     jobs.append(("labels", ["--fam", "labels", "--n", 40 if thorough else 6, "--seed", chk.seed, "--layouts", 2]))
     jobs.append(("labels_ns", ["--fam", "labels", "--n", 4, "--seed", chk.seed + 1, "--layouts", 1, "--stack", 0]))
+    jobs.append(("strings", ["--fam", "strings", "--seed", chk.seed, "--layouts", 1]))
+    # an accepted source must have the right image - also when it should not have been accepted
+    jobs.append(("beyond", ["--fam", "verdict", "--n", 4 if thorough else 1, "--seed", chk.seed + 3, "--layouts", 1]))
     nrand = 1600 if thorough else 160
     for k in range(4):
         jobs.append(("random%d" % k, ["--fam", "random", "--n", nrand // 4, "--seed", chk.seed * 7 + k, "--layouts", 3, "--stack", 1 if k < 3 else 0]))
@@ -279,7 +282,10 @@ def _dbg_jobs_run(chk, jobs, nproc=8):
     def gen(job):
         name, args = job
         out = _wpath("%s_%s.ndjson" % (chk.pid.lower(), name))
-        summ = harness(["gen", "run"] + args + ["--out", out])
+        if args and args[0] == "--GEN-CMD--":
+            summ = harness(["gen", "cmd"] + args[1:] + ["--out", out])
+        else:
+            summ = harness(["gen", "run"] + args + ["--out", out])
         res = tlc_trace("Trace_Debug", out, timeout=2400)
         return out, summ, res
     results = parallel(gen, jobs, nproc)
@@ -303,7 +309,59 @@ def _dbg_jobs_run(chk, jobs, nproc=8):
     return traces
 
 
-def _run_family(pid, rule, assumptions, jobs_fn, replay, mc=None):
+def _replay_B(chk, cfg, stride=1):
+    """Direction (B): behaviours enumerated by TLC (Gen_Debugger.tla) replayed through the real debugger."""
+    import re as _r
+    res = tlc_mc("Gen_Debugger", cfg, workers=6, coverage=False, timeout=2400)
+    chk.add_mc(res, cfg)
+    beh = []
+    for tag, body in res["tuples"]:
+        if tag == "REPLAY":
+            m = _r.search(r'"(\{.*\})"', body, _r.S)
+            beh.append(json.loads(json.loads('"' + m.group(1) + '"')))
+    beh = beh[chk.seed % stride::stride]
+    if not beh:
+        raise vlib.ToolError("Gen_Debugger produced no behaviours")
+    bpath = _wpath("%s_behaviours.ndjson" % chk.pid.lower())
+    with open(bpath, "w") as f:
+        for b in beh:
+            f.write(json.dumps(b) + "\n")
+    out = _wpath("%s_replay.ndjson" % chk.pid.lower())
+    harness(["gen", "run", "--mode", "replay", "--in", bpath, "--out", out])
+    sess, cur = {}, None
+    for line in open(out):
+        e = json.loads(line)
+        if e["ev"] in ("load", "loadfail"):
+            cur = int(e["id"].split(":")[1])
+            sess[cur] = {"execs": 0, "stop": None, "events": [e]}
+        else:
+            sess[cur]["events"].append(e)
+            if e["ev"] == "exec":
+                sess[cur]["execs"] += 1
+            elif e["ev"] == "stop":
+                sess[cur]["stop"] = e
+    for i, b in enumerate(beh):
+        s = sess.get(i)
+        names = "+".join(c["n"] for c in b["script"])
+        if not s or not s["stop"]:
+            chk.violation("replay:no-session", "behaviour %d (%s: %s) could not be replayed" % (i, b["prog"], names), {"family": "replay", "behaviour": b})
+            continue
+        fin = s["stop"]["fin"]
+        exp = {"reg": b["reg"], "pc": b["pc"], "cc": b["cc"], "mem": sorted([int(a), v] for a, v in b["mem"].items()), "nexec": b["nexec"]}
+        got = {"reg": fin["reg"], "pc": fin["pc"], "cc": fin["cc"], "mem": sorted(fin["mem"]), "nexec": s["execs"]}
+        if exp != got:
+            diff = {k: [exp[k], got[k]] for k in exp if exp[k] != got[k]}
+            chk.violation("replay:%s:%s" % (b["prog"], names), "TLC behaviour (%s, script %s) ends differently in the real debugger: spec vs real %s" % (b["prog"], names, json.dumps(diff)[:300]),
+                          {"family": "replay", "behaviour": b, "session": [_slim_ev(e) for e in s["events"]]})
+    chk.traces += len(beh)
+    chk.evaluations += len(beh)
+    chk.extra["behaviours_replayed_from_TLC"] = chk.extra.get("behaviours_replayed_from_TLC", 0) + len(beh)
+    chk.samples.append({"replayed_behaviour": {"prog": beh[0]["prog"], "script": [c["n"] for c in beh[len(beh) // 2]["script"]], "final_pc": beh[len(beh) // 2]["pc"]}})
+    os.remove(out)
+    os.remove(bpath)
+
+
+def _run_family(pid, rule, assumptions, jobs_fn, replay, mc=None, replay_b=None):
     chk = Check(pid)
     chk.rule = rule
     chk.assumptions = assumptions
@@ -316,8 +374,11 @@ def _run_family(pid, rule, assumptions, jobs_fn, replay, mc=None):
             res = tlc_mc(spec, cfg, workers=8, coverage=False, timeout=2400)
             chk.add_mc(res, cfg)
     traces = _dbg_jobs_run(chk, jobs_fn(chk, thorough))
+    if replay_b:
+        cfg, stride = replay_b(thorough)
+        _replay_B(chk, cfg, stride)
     chk.distinct = chk.evaluations
-    samples = []
+    samples = list(chk.samples)
     for e in vlib.sample_lines(traces[0], 12):
         if e["ev"] in ("load", "cmd", "exec") and len(samples) < 3:
             samples.append(_slim_ev(e))
@@ -388,12 +449,14 @@ DBG_RULE = ("session = program (catalogue of control-flow shapes + seeded struct
 
 def check_C09(replay=None):
     return _run_family("C09", DBG_RULE % "only non-mutating commands with arbitrary arguments, ending in quit / end of input; the same image is also run without debugger and final registers, PC, CC, all memory, output and exit kind are compared",
-                       DBG_ASSUME, _dbg_jobs("pure", enum_len=None), replay, mc=_mc_dbg("pure"))
+                       DBG_ASSUME, _dbg_jobs("pure", enum_len=None), replay, mc=_mc_dbg("pure"),
+                       replay_b=lambda th: ("Gen_Debugger_pure_deep.cfg" if th else "Gen_Debugger_pure.cfg", 1))
 
 
 def check_C10(replay=None):
     return _run_family("C10", DBG_RULE % "stepping commands: random scripts over step / step into k / step out / continue / break add/remove, plus ALL scripts up to a bounded length over that alphabet on the catalogue",
-                       DBG_ASSUME, _dbg_jobs("step", enum_len=2, extra=[("scn", ["--mode", "scenario"])]), replay, mc=_mc_dbg("mut"))
+                       DBG_ASSUME, _dbg_jobs("step", enum_len=2, extra=[("scn", ["--mode", "scenario"])]), replay, mc=_mc_dbg("mut"),
+                       replay_b=lambda th: ("Gen_Debugger_deep.cfg" if th else "Gen_Debugger.cfg", 4 if th else 1))
 
 
 def check_C11(replay=None):
@@ -403,22 +466,24 @@ def check_C11(replay=None):
 
 def check_C12(replay=None):
     return _run_family("C12", DBG_RULE % "histories of execution, move, goto, eval and self-modifying stores followed by reset (repeated, and followed by a complete run); after reset the full 65,536-word state must equal the load state",
-                       DBG_ASSUME, _dbg_jobs("reset"), replay, mc=_mc_dbg("mut"))
+                       DBG_ASSUME, _dbg_jobs("reset", extra=[("scn", ["--mode", "scenario"])]), replay, mc=_mc_dbg("mut"),
+                       replay_b=lambda th: ("Gen_Debugger.cfg", 1 if th else 2))
 
 
 def check_C13(replay=None):
     return _run_family("C13", DBG_RULE % "move / goto / break add/remove / print / assembly on absolute, label+-offset and ^offset locations at origin-1, origin, 0x7FFF, 0x8000, 0xFDFF, 0xFE00, 0xFFFF and with offsets +-32767/8",
-                       DBG_ASSUME, _dbg_jobs("loc", quick_n=32), replay, mc=_mc_dbg("mut"))
+                       DBG_ASSUME, _dbg_jobs("loc", quick_n=32, extra=[("scn", ["--mode", "scenario"]), ("cmdedge", ["--GEN-CMD--", "--mode", "random", "--n", 100])]), replay, mc=_mc_dbg("mut"))
 
 
 def check_C15(replay=None):
     return _run_family("C15", DBG_RULE % "eval of every register/immediate/base+offset/label-operand form at varying PCs (after goto / step into), refused forms (BR*, RTI, HALT, unknown traps) and malformed text (missing, surplus, wrong-kind operands, directives, two instructions)",
-                       DBG_ASSUME + ["literal PC offsets and JSR/JSRR/CALL link values under eval are unspecified and not generated"], _dbg_jobs("eval", quick_n=32), replay, mc=_mc_dbg("mut"))
+                       DBG_ASSUME + ["literal PC offsets and JSR/JSRR/CALL link values under eval are unspecified and not generated"], _dbg_jobs("eval", quick_n=32, extra=[("scn", ["--mode", "scenario"])]), replay, mc=_mc_dbg("mut"))
 
 
 def check_C16(replay=None):
     return _run_family("C16", DBG_RULE % "every resuming command issued at PC = 0xFFFF, below the origin, at/above 0xFE00 and parked on HALT (reached by computed jumps, goto, eval jmp), followed by end of input; the run-loop iteration count is bounded by executed instructions + consumed commands (ProgressBound) and the step budget must never be exhausted",
-                       DBG_ASSUME, _dbg_jobs("progress", enum_len=2), replay, mc=_mc_dbg("live"))
+                       DBG_ASSUME, _dbg_jobs("progress", enum_len=2, extra=[("scn", ["--mode", "scenario"])]), replay, mc=_mc_dbg("live"),
+                       replay_b=lambda th: ("Gen_Debugger_pure.cfg", 1))
 
 
 # --------------------------------------------------------------------------------------------
@@ -700,8 +765,8 @@ def check_C08(replay=None):
     d, man = _files(chk, "atomic", 0)
     use_strace = _strace_ok()
     chk.extra["strace"] = use_strace
-    old = bytes(range(7)) * 3
-    jobs = [(c, dk) for c in man for dk in ("absent", "file", "devfull", "nodir")]
+    old = bytes(range(251)) * 20          # longer than any object the cases produce
+    jobs = [(c, dk) for c in man for dk in ("absent", "file", "longer", "devfull", "nodir")]
 
     def atomic(job):
         c, dk = job
@@ -713,11 +778,20 @@ def check_C08(replay=None):
         elif dk == "file":
             dest = base + ".lc3"
             open(dest, "wb").write(old)
+        elif dk == "longer":
+            # the destination already holds this very object followed by stale bytes (an earlier, longer build)
+            dest = base + ".lc3"
+            tmp = base + ".tmp.lc3"
+            r0 = vlib.run_lace(["compile"] + _flag(c["stack"]) + [c["path"], tmp])
+            good = open(tmp, "rb").read() if r0[0] == 0 and os.path.exists(tmp) else b"\x30\x00"
+            if os.path.exists(tmp):
+                os.remove(tmp)
+            open(dest, "wb").write(good + b"\xf0\x26\x12\x34\xf0\x25")
         elif dk == "devfull":
             dest = "/dev/full"
         else:
             dest = os.path.join(base + "_missing_dir", "x.lc3")
-        before = list(open(dest, "rb").read()) if dk in ("absent", "file") and os.path.exists(dest) else [-1]
+        before = list(open(dest, "rb").read()) if dk in ("absent", "file", "longer") and os.path.exists(dest) else [-1]
         log = base + ".strace"
         argv = ["compile"] + _flag(c["stack"]) + [c["path"], dest]
         opens = -1
@@ -731,7 +805,7 @@ def check_C08(replay=None):
             os.remove(log)
         else:
             code = vlib.run_lace(argv)[0]
-        after = list(open(dest, "rb").read()) if dk in ("absent", "file", "nodir") and os.path.exists(dest) else [-1]
+        after = list(open(dest, "rb").read()) if dk in ("absent", "file", "longer", "nodir") and os.path.exists(dest) else [-1]
         if dk == "devfull":
             after = before = [-2]
         return {"ev": "atomic", "tag": c["tag"] + ":" + dk, "ast": c["ast"], "stack": c["stack"], "dest": dk, "code": code,
@@ -867,7 +941,7 @@ def check_C19(replay=None):
         raise vlib.ToolError("MC_Session without the reset should violate Pure (the model would be vacuous)")
     chk.states += sanity["distinct"]
     chk.transitions += sanity["generated"]
-    jobs = [("sess%d" % k, ["--fam", "session", "--n", 200 if thorough else 40, "--seed", chk.seed * 3 + k]) for k in range(3)]
+    jobs = [("sess%d" % k, ["--fam", "session", "--n", 200 if thorough else 40, "--seed", chk.seed * 3 + k, "--stack", 1 if k != 1 else 0]) for k in range(4)]
     traces = _asm_jobs_run(chk, jobs)
     chk.distinct = chk.evaluations
     chk.samples = [_slim(e) for e in vlib.sample_lines(traces[0], 2)]
@@ -928,6 +1002,7 @@ def check_C05(replay=None):
     for k in range(4):
         jobs.append(("mut%d" % k, ["--fam", "mutate", "--n", 5000 if thorough else 500, "--seed", chk.seed * 9 + k]))
     jobs.append(("huge", ["--fam", "huge", "--seed", chk.seed]))
+    jobs.append(("rawstr", ["--fam", "rawstrings", "--len", 5 if thorough else 4, "--seed", chk.seed]))
 
     def gen(job):
         name, args = job
